@@ -123,6 +123,36 @@ def run(ctx):
                 else:
                     ctx.undecided('C12.3-bigint-digits', dinst, 'comparison of %s not recognised' % tys)
 
+    # ---------------- clause 2: numbers by mathematical value ------------------------------------------------------
+    ctx.rule('C12.2-number-shapes', 'numbers compare by mathematical value: no comparison on the number path uses the IEEE total order (total_cmp separates -0.0 from 0.0, which are the same number), '
+             'and the magnitude of a negative i64 is taken with wrapping_neg / unsigned_abs (exact for i64::MIN), never with a saturating or plain negation', floor=4)
+    from ..families import check_casts
+    MAG = {r're:erltf::(term|borrowed)::compare_int_bigint:wrapping_neg\(i\)\(i64->u64\)':
+           'two\'s-complement magnitude of a negative i64: wrapping_neg then reinterpretation as u64 yields |i| exactly, i64::MIN included (taken on the i < 0 branch)',
+           r're:erltf::(term|borrowed)::compare_int_bigint:unsigned_abs\(i\).*': 'unsigned_abs is exact'}
+    for which in ('owned', 'borrowed'):
+        root = CMP_O if which == 'owned' else CMP_B
+        reach = sorted(q for q in P.reachable_from([root]) if ctx.F.bodies[q]['crate'] == 'erltf')
+        tc = [(q, bb) for q in reach for bb, t in P.B(q).calls() if (callee_of(t)[0] or '').endswith('::total_cmp')]
+        if tc:
+            q, bb = tc[0]
+            ctx.bad('C12.2-number-shapes', which + ':float-order', '%s compares floats with f64::total_cmp: that is the IEEE total order, in which -0.0 < 0.0 (and NaNs are ordered by payload); '
+                    'as numbers the two zeros are equal, and both equal the integer 0' % q.rsplit('::', 2)[-2], ctx.where(P.B(q), bb), key='SHAPE:%s:float-total_cmp' % root)
+        else:
+            ctx.ok('C12.2-number-shapes', which + ':float-order', 'no total_cmp on the comparison path (%d functions)' % len(reach))
+    for mod in ('term', 'borrowed'):
+        for hn in ('compare_int_bigint', 'compare_bigint_int', 'compare_int_float', 'compare_float_int'):
+            HB = P.B('erltf::%s::%s' % (mod, hn))
+            if HB is not None:
+                before = len(ctx.records)
+                check_casts(ctx, HB, 'C12.2-number-shapes', include_float=False, reviewed=MAG)
+                # other ways of negating an i64 before widening
+                for bb, t in HB.calls():
+                    nm = (callee_of(t)[0] or '').rsplit('::', 1)[-1]
+                    if nm in ('saturating_neg', 'saturating_abs', 'abs', 'checked_neg', 'checked_abs', 'overflowing_neg') and 'i64' in (callee_of(t)[0] or ''):
+                        ctx.bad('C12.2-number-shapes', '%s::%s:%s' % (mod, hn, nm), 'the magnitude of the integer is taken with %s, which is not exact for i64::MIN (-2^63): Integer(i64::MIN) then compares unequal to the big integer -2^63' % nm,
+                                ctx.where(HB, bb), key='CAST:erltf::%s::%s:%s' % (mod, hn, nm))
+
     # ---------------- clause 4/5: container recipes ------------------------------------------------------------
     ctx.rule('C12.4-map-recipe', 'maps compare by size, then all keys, then all values: a single loop that compares the key and the value of each entry interleaves them', floor=2)
     ctx.rule('C12.5-recipes', 'tuples compare size first, lists compare elements first and length last, atoms by name', floor=6)
